@@ -180,3 +180,14 @@ def _canary_mod_add_wrap():
 
 CANARIES = [("BasicFifo.read does not advance the read port", _canary_no_addr_forward),
             ("mod_add wrap table off by one (non power-of-two depth)", _canary_mod_add_wrap)]
+
+
+def _callers_items():
+    from transactron.lib import BasicFifo, FIFO
+
+    return [("BasicFifo(2 bits, depth 3)", lambda: BasicFifo([("d", 2)], 3), [("read", ["read"]), ("write", ["write"])], [("peek", ["peek"]), ("clear", ["clear"])]),
+            ("FIFO(2 bits, depth 2)", lambda: FIFO([("d", 2)], 2), [("read", ["read"]), ("write", ["write"])], [])]
+
+
+from ..excl import install as _install  # noqa: E402
+_install(globals(), _callers_items())
